@@ -37,23 +37,23 @@ Definition bsum (phi : Q -> Q) (c : C) (b : sballot) : Q :=
   fold_right (fun cs acc => (if ceqb c (fst cs) then phi (snd cs) else 0) + acc) 0 b.
 Definition psum (phi : Q -> Q) (c : C) (votes : sprofile) : Q :=
   fold_right (fun bn acc => inject_Z (snd bn) * bsum phi c (fst bn) + acc) 0 votes.
-Definition isum (phi : Q -> Q) (c : C) (l : list instr) : Q :=
+Definition insum (phi : Q -> Q) (c : C) (l : list instr) : Q :=
   fold_right (fun i acc => (if ceqb c (fst (fst i)) then phi (snd (fst i)) * inject_Z (snd i) else 0) + acc) 0 l.
 
-Lemma isum_app phi c a b : isum phi c (a ++ b) == isum phi c a + isum phi c b.
-Proof. unfold isum. induction a as [|i a IH]; cbn [app fold_right]; [ring|]. rewrite IH. ring. Qed.
+Lemma insum_app phi c a b : insum phi c (a ++ b) == insum phi c a + insum phi c b.
+Proof. unfold insum. induction a as [|i a IH]; cbn [app fold_right]; [ring|]. rewrite IH. ring. Qed.
 
-Lemma isum_ballot phi c (b : sballot) n :
-  isum phi c (map (fun cs : C * Q => (fst cs, snd cs, n)) b) == inject_Z n * bsum phi c b.
+Lemma insum_ballot phi c (b : sballot) n :
+  insum phi c (map (fun cs : C * Q => (fst cs, snd cs, n)) b) == inject_Z n * bsum phi c b.
 Proof.
-  unfold isum, bsum. induction b as [|[c' s] b IH]; cbn [map fold_right fst snd]; [ring|].
+  unfold insum, bsum. induction b as [|[c' s] b IH]; cbn [map fold_right fst snd]; [ring|].
   rewrite IH. destruct (ceqb c c'); ring.
 Qed.
 
-Lemma isum_instrs phi c votes : isum phi c (instrs votes) == psum phi c votes.
+Lemma insum_instrs phi c votes : insum phi c (instrs votes) == psum phi c votes.
 Proof.
   unfold instrs, psum. induction votes as [|[b n] votes IH]; cbn [flat_map fold_right fst snd]; [reflexivity|].
-  rewrite isum_app, isum_ballot, IH. reflexivity.
+  rewrite insum_app, insum_ballot, IH. reflexivity.
 Qed.
 
 Lemma psum_app phi c a b : psum phi c (a ++ b) == psum phi c a + psum phi c b.
@@ -69,16 +69,16 @@ Proof.
   apply ceqb_eq in E. subst c. unfold g. apply wq_set, Hp.
 Qed.
 
-Lemma W_fold phi c l : phi_ok phi -> forall D, wq phi (look (fold_left sstep l D) c) == wq phi (look D c) + isum phi c l.
+Lemma W_fold phi c l : phi_ok phi -> forall D, wq phi (look (fold_left sstep l D) c) == wq phi (look D c) + insum phi c l.
 Proof.
-  intros Hp. induction l as [|i l IH]; intros D; cbn [fold_left isum fold_right]; [ring|].
-  fold (isum phi c l). rewrite IH, W_sstep by exact Hp. ring.
+  intros Hp. induction l as [|i l IH]; intros D; cbn [fold_left insum fold_right]; [ring|].
+  fold (insum phi c l). rewrite IH, W_sstep by exact Hp. ring.
 Qed.
 
 (* every tally of the dictionary of a candidate is the sum of the ballots' contributions *)
 Theorem wq_raw phi c votes : phi_ok phi -> wq phi (look (raw_scores votes) c) == psum phi c votes.
 Proof.
-  intros Hp. rewrite raw_scores_instrs, (W_fold phi c _ Hp), isum_instrs. unfold look. cbn [dget wq fold_right]. ring.
+  intros Hp. rewrite raw_scores_instrs, (W_fold phi c _ Hp), insum_instrs. unfold look. cbn [dget wq fold_right]. ring.
 Qed.
 
 (* the candidates of the output: those scored by some ballot *)
